@@ -480,7 +480,7 @@ func c05Free(c *Ctx, r *Rand, rounds int) {
 		cs := map[string]interface{}{"free_running": true, "callers": k, "max_size": maxSize, "sharded": sharded, "shard_mode": shardMode, "bad_arg": badArg, "wait_us": int(wait / time.Microsecond), "delays_us": delays}
 		select {
 		case <-done:
-		case <-time.After(5 * time.Second):
+		case <-patient(5 * time.Second):
 			rep.Fail("impl_ne_spec", nil, cs, map[string]interface{}{"what": "free-running callers: an Invoke did not return within 5 s"})
 			return
 		}
